@@ -5,6 +5,15 @@
 //
 // C14 — Kani cross-checks on the real KBucket (the unbounded proof of KBucket::entry is the Verus unit `kbucket`).
 use super::*;
+
+/// Every mutable static of this file carries a unique tag next to its value.  Kani 0.68 names a constant allocation
+/// after the first global with the same bytes, so an all-zero `static mut X: usize = 0` can become the storage of an
+/// unrelated all-zero CONSTANT of the standard library (observed: alloc::raw_vec::ZERO_CAP read from a harness
+/// counter, depending on the crate hash and therefore on the path of the checkout).  A unique tag makes the bytes of
+/// each static unique, so no constant can be merged with it.
+#[repr(C)]
+struct Tagged<T> { tag: u64, v: T }
+
 use crate::protocol::libp2p::kademlia::types::verif_kad_types::{fab_key, key_bytes};
 use crate::transport::manager::address::AddressStore;
 
@@ -67,7 +76,7 @@ fn c14_bucket_entry_full_3sym() {
     core::mem::forget(b);
 }
 
-static mut EMPTY_FLAGS: [bool; 4] = [false; 4];
+static mut EMPTY_FLAGS: Tagged<[bool; 4]> = Tagged { tag: 0x54499aa8abf0f1f, v: [false; 4] };
 /// uninterpreted stand-in for AddressStore::is_empty: a store cannot be filled without hash-map inserts
 fn stub_is_empty(_s: &AddressStore) -> bool { kani::any() }
 
